@@ -74,6 +74,8 @@ func sanitizeSelectionSet(ctx *PlanningContext, selectionSet ast.SelectionSet, i
 				}
 				result = addSelectionSetToSanitizedResult(result, childSelectionSet...)
 			default:
+				// the fragment is unfolded into the selection set of an object type
+				childSelectionSet = narrowSelectionSetToType(ctx, childSelectionSet, s.ObjectDefinition.Name)
 				result = addSelectionSetToSanitizedResult(result, childSelectionSet...)
 			}
 
@@ -187,12 +189,34 @@ func sanitizeInterfaceInlineFragment(ctx *PlanningContext, selectionSet ast.Sele
 		inlineFragment := &ast.InlineFragment{
 			TypeCondition:    pt.Name,
 			Directives:       selection.Directives,
-			SelectionSet:     fragmentSelectionSet,
+			SelectionSet:     narrowSelectionSetToType(ctx, fragmentSelectionSet, pt.Name),
 			ObjectDefinition: pt,
 		}
 		selectionSet = addSelectionSetToSanitizedResult(selectionSet, inlineFragment)
 	}
 	return selectionSet
+}
+
+// narrowSelectionSetToType leaves what applies to the objects of provided object type:
+// a fragment on that type is unfolded, fragments on other object types never match and are left out
+func narrowSelectionSetToType(ctx *PlanningContext, selectionSet ast.SelectionSet, typename string) ast.SelectionSet {
+	var result ast.SelectionSet
+	for _, sel := range selectionSet {
+		frag, ok := sel.(*ast.InlineFragment)
+		if !ok || len(frag.Directives) != 0 {
+			result = addSelectionSetToSanitizedResult(result, sel)
+			continue
+		}
+		if frag.TypeCondition == typename {
+			result = addSelectionSetToSanitizedResult(result, narrowSelectionSetToType(ctx, frag.SelectionSet, typename)...)
+			continue
+		}
+		if t := ctx.Schema.Types[frag.TypeCondition]; t != nil && t.Kind == ast.Object {
+			continue
+		}
+		result = addSelectionSetToSanitizedResult(result, sel)
+	}
+	return result
 }
 
 func setMissingScrubFieldsForFieldSelectionSet(ctx *PlanningContext, insertionPoint []string, field *ast.Field, selectionSet ast.SelectionSet, scrubFields ScrubFields, addedFields []string) ScrubFields {
